@@ -1,13 +1,18 @@
 """Schedule generators for the full UDP stack world (rvh stack), C20."""
 
 
-def stack_schedules(rng, props, n, full=False):
+def stack_schedules(rng, props, n, full=False, modes=("interference", "interference", "disconnects", "churn", "churn", "silence")):
     out = []
     for i in range(n):
-        mode = rng.choice(["interference", "interference", "disconnects", "churn", "churn", "silence"])
+        mode = rng.choice(list(modes))
+        # churn_hole: slots are handed out in join order; a client in a low slot leaves, then one in a higher slot with a bystander
+        # between them: the bystander's session must survive both departures
+        hole = mode == "churn_hole"
+        if hole:
+            mode = "churn"
         clients = [1, 2] if rng.random() < 0.6 else [1, 2, 3]
         if mode == "churn":
-            clients = [1, 2, 3, 4] if rng.random() < 0.5 else [1, 2, 3]
+            clients = [1, 2, 3, 4] if (hole or rng.random() < 0.5) else [1, 2, 3]
         timeout = 2 if mode != "interference" else 5
         dt = rng.choice([50, 100, 100])
         cfg = {"clients": clients, "max_clients": 4, "timeout_s": timeout, "props": props, "allow_timeouts": mode == "silence"}
@@ -45,8 +50,11 @@ def stack_schedules(rng, props, n, full=False):
             p_fault = rng.choice([0.0, 0.1])
             for k, c in enumerate(clients):
                 join[c] = k * 10
-            leavers = rng.sample(clients[:-1], rng.randint(1, len(clients) - 1))
-            if rng.random() < 0.5:
+            if hole:
+                leavers = [1, 3]        # slots 1 and 3 are freed in this order, client 2 sits between them, client 4 joins late
+            else:
+                leavers = rng.sample(clients[:-1], rng.randint(1, len(clients) - 1))
+            if hole or rng.random() < 0.5:
                 leavers.sort()      # lower slots are freed first
             late = clients[-1]
             join[late] = 10 * len(clients) + 25
